@@ -91,6 +91,9 @@ func (f *frame) call(ins ssa.Instruction, c *ssa.CallCommon) Val {
 func (f *frame) callFn(fn *ssa.Function, bindings []Val, args []Val, resT *types.Tuple, ins ssa.Instruction) Val {
 	u := f.u
 	key := funcKey(fn)
+	if key == "sort.Sort" || key == "sort.Stable" {
+		return f.sortCall(key, args, ins)
+	}
 	ct := u.eng.contracts[key]
 	if ct != nil && ct.Opaque {
 		u.eng.opaqueUsed[key] = true
@@ -172,6 +175,7 @@ func (f *frame) opaqueResult(resT *types.Tuple) Val {
 func (f *frame) havocCall(key string, args []Val, resT *types.Tuple, ins ssa.Instruction) Val {
 	u := f.u
 	u.note("unmodelled-call %s: results unconstrained, every heap havocked", key)
+	u.frameGhostWrite("everything (call of " + key + ", which has neither contract nor model)")
 	for _, h := range sortedKeys(f.cur.heaps) {
 		if strings.HasPrefix(h, "G.glob.") || h == "G.nextRef" {
 			continue
@@ -459,6 +463,12 @@ func (f *frame) applyModifies(ct *Contract, env *SpecEnv) {
 			}
 			env.bad("modifies: unknown ghost %s", x.Tok)
 		case "field":
+			if hn, ok := u.anyField(x, env); ok {
+				u.frameAnyWrite(hn)
+				u.heap(f.cur, hn, u.eng.heapSorts[hn])
+				u.havocHeap(f.cur, hn)
+				continue
+			}
 			b := env.eval(x.Args[0])
 			if gf, ok := u.eng.ghostFields[x.Tok]; ok {
 				if _, isField := env.structField(b, x.Tok); !isField {
@@ -1233,8 +1243,47 @@ func (u *Unit) scanCallMods(c *ssa.CallCommon, add func(string, ssa.Value, bool)
 				}
 				add("G."+x.Tok, nil, false)
 			case "field":
+				if len(x.Args) == 1 && x.Args[0].Op == "call" && len(x.Args[0].Args) == 2 && x.Args[0].Args[0].Tok == "any" && fn != nil {
+					// any(T).f
+					tx := x.Args[0].Args[1]
+					pkg := fn.Pkg
+					if tx.Op == "field" {
+						pkg = u.eng.pkgByName[tx.Args[0].Tok]
+					}
+					if pkg != nil {
+						if obj := pkg.Pkg.Scope().Lookup(tx.Tok); obj != nil {
+							if st, ok := obj.Type().Underlying().(*types.Struct); ok {
+								for i := 0; i < st.NumFields(); i++ {
+									if st.Field(i).Name() == x.Tok {
+										hn, hs, _ := u.fieldHeapName(obj.Type(), i)
+										u.eng.heapSorts[hn] = hs
+										add(hn, nil, false)
+									}
+								}
+							}
+						}
+					}
+					continue
+				}
 				if _, ok := u.eng.ghostFields[x.Tok]; ok {
 					add("GF."+x.Tok, nil, false)
+				}
+				// the exact heap, from the static type of the base expression
+				if fn != nil {
+					if bt := u.staticType(fn, x.Args[0]); bt != nil {
+						if pt, ok := bt.Underlying().(*types.Pointer); ok {
+							bt = pt.Elem()
+						}
+						if st, ok := bt.Underlying().(*types.Struct); ok {
+							for i := 0; i < st.NumFields(); i++ {
+								if st.Field(i).Name() == x.Tok {
+									hn, hs, _ := u.fieldHeapName(bt, i)
+									u.eng.heapSorts[hn] = hs
+									add(hn, nil, false)
+								}
+							}
+						}
+					}
 				}
 				// struct field heaps with that field name
 				for h := range u.heapNames {
@@ -1249,6 +1298,25 @@ func (u *Unit) scanCallMods(c *ssa.CallCommon, add func(string, ssa.Value, bool)
 				// *p : box or struct
 				if fn != nil {
 					u.addDerefHeaps(fn, x.Args[0], add)
+					if bt := u.staticType(fn, x.Args[0]); bt != nil {
+						if pt, ok := bt.Underlying().(*types.Pointer); ok {
+							if st, ok := pt.Elem().Underlying().(*types.Struct); ok {
+								for i := 0; i < st.NumFields(); i++ {
+									hn, hs, _ := u.fieldHeapName(pt.Elem(), i)
+									u.eng.heapSorts[hn] = hs
+									add(hn, nil, false)
+								}
+							} else if at, ok := pt.Elem().Underlying().(*types.Array); ok {
+								hn, hs, _ := u.elemHeapName(at.Elem())
+								u.eng.heapSorts[hn] = hs
+								add(hn, nil, false)
+							} else {
+								hn, hs, _ := u.boxHeapName(pt.Elem())
+								u.eng.heapSorts[hn] = hs
+								add(hn, nil, false)
+							}
+						}
+					}
 				} else {
 					all()
 				}
@@ -1256,6 +1324,13 @@ func (u *Unit) scanCallMods(c *ssa.CallCommon, add func(string, ssa.Value, bool)
 				// element heap: by the static type of the named parameter
 				if fn != nil {
 					u.addElemHeaps(fn, x.Args[0], add)
+					if bt := u.staticType(fn, x.Args[0]); bt != nil {
+						if sl, ok := bt.Underlying().(*types.Slice); ok {
+							hn, hs, _ := u.elemHeapName(sl.Elem())
+							u.eng.heapSorts[hn] = hs
+							add(hn, nil, false)
+						}
+					}
 				} else {
 					hn, hs, _ := u.elemHeapName(types.Typ[types.Uint8])
 					u.eng.heapSorts[hn] = hs
@@ -1590,4 +1665,137 @@ func (u *Unit) devirtFor(key string) []types.Type {
 		out = append(out, ct.Devirt[key]...)
 	}
 	return out
+}
+
+// sortCall models sort.Sort / sort.Stable on a slice type whose dynamic type is known in this unit: the elements
+// of the slice are permuted (sort.Stable: nothing more is claimed either; order facts are not modelled).
+// Assumption recorded in the evidence: the Len/Less/Swap methods of the sorted type implement the slice order they
+// are written for and do not panic; for slices of pointers the elements must be non-nil (checked here).
+func (f *frame) sortCall(key string, args []Val, ins ssa.Instruction) Val {
+	u := f.u
+	it, ok := args[0].(Term)
+	if !ok {
+		f.bad("%s: unsupported argument", key)
+	}
+	di, ok := u.ifaceDyn[it.S]
+	if !ok {
+		f.bad("%s on an interface value whose dynamic type is not known in this function", key)
+	}
+	sl, isSlice := di.T.Underlying().(*types.Slice)
+	s, isTerm := di.V.(Term)
+	if !isSlice || !isTerm {
+		f.bad("%s on a non-slice type %s", key, di.T)
+	}
+	u.note("%s(%s): modelled as a permutation of the slice elements; Len/Less/Swap of the type are assumed to implement the slice order and not to panic", key, di.T)
+	el := sl.Elem()
+	hn, hs, es := u.elemHeapName(el)
+	h := u.heap(f.cur, hn, hs)
+	old := "(select " + h.S + " (s-ref " + s.S + "))"
+	lo := sliceOff(s)
+	hi := add(sliceOff(s), sliceLen(s))
+	if es.K == KRef {
+		u.oblige(f.key, "safe.nil", "", f.curReach, Term{fmt.Sprintf("(forall ((q_i Int)) (! (=> (and (<= %s q_i) (< q_i %s)) (not (= (select %s q_i) 0))) :pattern ((select %s q_i))))", lo.S, hi.S, old, old), sBool},
+			f.pos(ins)+" elements handed to "+key+" are not nil (its Less dereferences them)", "")
+	}
+	na := u.fresh("sorted_arr")
+	u.items = append(u.items, fmt.Sprintf("(declare-const %s (Array Int %s))", na, u.tc.smt(es)))
+	pm := u.fresh("perm")
+	iv := u.fresh("perminv")
+	u.items = append(u.items, fmt.Sprintf("(declare-fun %s (Int) Int)", pm), fmt.Sprintf("(declare-fun %s (Int) Int)", iv))
+	inr := func(x string) string { return fmt.Sprintf("(and (<= %s %s) (< %s %s))", lo.S, x, x, hi.S) }
+	u.assume(Term{fmt.Sprintf("(forall ((q_i Int)) (! (=> %s (and %s (= (select %s q_i) (select %s (%s q_i))) (= (%s (%s q_i)) q_i))) :pattern ((select %s q_i)) :pattern ((%s q_i))))",
+		inr("q_i"), inr("("+pm+" q_i)"), na, old, pm, iv, pm, na, pm), sBool})
+	u.assume(Term{fmt.Sprintf("(forall ((q_i Int)) (! (=> %s (and %s (= (%s (%s q_i)) q_i))) :pattern ((%s q_i))))",
+		inr("q_i"), inr("("+iv+" q_i)"), pm, iv, iv), sBool})
+	u.assume(Term{fmt.Sprintf("(forall ((q_i Int)) (! (=> (not %s) (= (select %s q_i) (select %s q_i))) :pattern ((select %s q_i))))", inr("q_i"), na, old, na), sBool})
+	u.frameWrite(hn, Term{"(ite (< " + lo.S + " " + hi.S + ") " + sliceRef(s).S + " " + sanitize("G.nextRef") + "!init)", sInt}, &lo, &hi, "elements permuted by "+key)
+	u.setHeap(f.cur, hn, hs, sto(h, sliceRef(s), Term{na, nil}))
+	return nil
+}
+
+// staticType gives the Go type of a location expression of a contract of fn (parameters, field selections,
+// dereferences, indexing, asptr); nil when it cannot be determined.
+func (u *Unit) staticType(fn *ssa.Function, x *SX) types.Type {
+	switch x.Op {
+	case "ident":
+		for _, p := range fn.Params {
+			if p.Name() == x.Tok {
+				return p.Type()
+			}
+		}
+		for _, fv := range fn.FreeVars {
+			if fv.Name() == x.Tok {
+				if pt, ok := fv.Type().Underlying().(*types.Pointer); ok {
+					return pt.Elem()
+				}
+			}
+		}
+		rt := fn.Signature.Results()
+		for i := 0; i < rt.Len(); i++ {
+			if rt.At(i).Name() == x.Tok || x.Tok == fmt.Sprintf("result%d", i) || (x.Tok == "result" && rt.Len() == 1) {
+				return rt.At(i).Type()
+			}
+		}
+		return nil
+	case "paren":
+		return u.staticType(fn, x.Args[0])
+	case "field":
+		bt := u.staticType(fn, x.Args[0])
+		if bt == nil {
+			return nil
+		}
+		if pt, ok := bt.Underlying().(*types.Pointer); ok {
+			bt = pt.Elem()
+		}
+		st, ok := bt.Underlying().(*types.Struct)
+		if !ok {
+			return nil
+		}
+		for i := 0; i < st.NumFields(); i++ {
+			if st.Field(i).Name() == x.Tok {
+				return st.Field(i).Type()
+			}
+		}
+		return nil
+	case "un":
+		if x.Tok != "*" {
+			return nil
+		}
+		bt := u.staticType(fn, x.Args[0])
+		if bt == nil {
+			return nil
+		}
+		if pt, ok := bt.Underlying().(*types.Pointer); ok {
+			return pt.Elem()
+		}
+		return nil
+	case "index":
+		bt := u.staticType(fn, x.Args[0])
+		if bt == nil {
+			return nil
+		}
+		switch t := bt.Underlying().(type) {
+		case *types.Slice:
+			return t.Elem()
+		case *types.Array:
+			return t.Elem()
+		}
+		return nil
+	case "call":
+		if len(x.Args) == 3 && x.Args[0].Op == "ident" && x.Args[0].Tok == "asptr" {
+			tx := x.Args[2]
+			pkg := fn.Pkg
+			if tx.Op == "field" {
+				pkg = u.eng.pkgByName[tx.Args[0].Tok]
+			}
+			if pkg == nil {
+				return nil
+			}
+			if obj := pkg.Pkg.Scope().Lookup(tx.Tok); obj != nil {
+				return types.NewPointer(obj.Type())
+			}
+		}
+		return nil
+	}
+	return nil
 }
